@@ -53,14 +53,22 @@ def run_unify(case):
     ok = G.unify(ra, rb)
     expected = G.observe(ra) if ok else None
     results = {}
-    for order in ("ab", "ba"):
+    ta, tb = ref_fs.fs_to_text(case["a"]), ref_fs.fs_to_text(case["b"])
+    rounds = ("ab", "ba") + (("text",) if ta is not None and tb is not None else ())
+    for order in rounds:
         with guard(failures, "build"):
-            # in the second round the structures have answered path queries while they were being built
-            A = ref_fs.build_lib_fs(case["a"], ask=(order == "ba"))
-            B = ref_fs.build_lib_fs(case["b"], ask=(order == "ba"))
+            if order == "text":
+                # both structures read from their text form (they use the same variable names ?v1, ?v2 ...: the
+                # names are local to each call)
+                A = FeatureStructure.from_text(ta)
+                B = FeatureStructure.from_text(tb)
+            else:
+                # in the second round the structures have answered path queries while they were being built
+                A = ref_fs.build_lib_fs(case["a"], ask=(order == "ba"))
+                B = ref_fs.build_lib_fs(case["b"], ask=(order == "ba"))
         if failures:
             return {"failures": failures}
-        recv, arg = (A, B) if order == "ab" else (B, A)
+        recv, arg = (B, A) if order == "ba" else (A, B)
         sub = "unify_" + order
         try:
             recv.unify(arg)
@@ -98,7 +106,7 @@ def run_unify(case):
                                              {"fresh": fresh[:4], "queried_while_built": aged[:4]}))
                 results[order] = got
     shared = set(pa0) & set(pb0) - {()}
-    labels = ["unify", "compatible" if ok else "clash"]
+    labels = ["unify", "compatible" if ok else "clash"] + (["text_form"] if "text" in rounds else [])
     if any(len(g) > 1 for g in (expected[1] if expected else [])):
         labels.append("reentrancy_in_result")
     nt = len(pa0) >= 3 and len(pb0) >= 3 and bool(shared)
